@@ -82,6 +82,14 @@ def judge(sim, rec, res, case):
              % (dead, sim.thread_errors[:2]))
     if 'startup_reported' in sim.hits:
         res.count('startup_reports_delivered')
+    for n in sim.notes:
+        if n.startswith('limit-not-enforced:'):
+            viol('left-behind/run-time-limit', '%s: its process does not end '
+                 'on its own, its run-time limit passed and the timeout '
+                 'watcher went through 500 more cycles without ending it'
+                 % n.split(':', 1)[1])
+    res.count('hanging_tasks_with_limit',
+              sum(1 for t in case['tasks'] if t['ending'] == 'hang'))
 
     for uid, r in rec.items():
         spec = sim.specs[uid]
@@ -210,7 +218,8 @@ def run_case(ctx, res, case, idx=0):
             res.count('line_events', sim.perturb.events)
             res.count('target_hits', sim.perturb.hit)
         for n in sim.notes:
-            if n not in ('watchdog', 'idle-exit'):
+            if n not in ('watchdog', 'idle-exit') and \
+                    not n.startswith('limit-not-enforced'):
                 res.note(n)
         sig = digest([sorted((u, r['order']) for u, r in rec.items()),
                       sorted(sim.hits)])
